@@ -731,7 +731,7 @@ def run_cases(cases):
 def main():
     chk = Check("C14", groups=["dist"])
     chk.build_props()
-    n_cases = 63 if chk.tier == "quick" else 1400
+    n_cases = 63 if chk.tier == "quick" else 1000
     Out.ROW_CAP = 3 if chk.tier == "quick" else 99
     cases = [dict(c) for c in FIXED_CASES]
     corpus = os.path.join(common.VERIF, "corpus", "C14.jsonl")
